@@ -89,7 +89,24 @@ def table():
                     parses = True
                 except SyntaxError:
                     parses = False
-            rows.append({'kind': kind, 'field': field, 'handlers': h > 0, 'orelse': bool(e), 'finalbody': bool(f), 'canNorm': can_norm,
+            # when the emptying is allowed under normalisation: do it for real (delete and cut) and ask CPython which statement
+            # class the resulting source has (all `except*` handlers gone with a `finally` left: a plain Try)
+            cls_ok = True
+            if can_norm and KINDS.get(kind) and kind not in ('module',):
+                for how in ('delete', 'cut'):
+                    r2 = FST(_src(kind, h, e, f), 'exec')
+                    n2 = next(n for n in r2.walk(True) if n.a.__class__.__name__ == CLS[kind])
+                    try:
+                        if how == 'delete':
+                            n2.put_slice(None, 0, 'end', field, norm=True)
+                        else:
+                            n2.get_slice(0, 'end', field, cut=True, norm=True)
+                        live = r2.a.body[0].__class__.__name__
+                        parsed = ast.parse(r2.src).body[0].__class__.__name__
+                        cls_ok = cls_ok and live == parsed
+                    except Exception:
+                        cls_ok = False
+            rows.append({'clsOk': cls_ok, 'kind': kind, 'field': field, 'handlers': h > 0, 'orelse': bool(e), 'finalbody': bool(f), 'canNorm': can_norm,
                          'canRaw': can_raw, 'parsesAfter': parses, 'src': _src(kind, h, e, f) if KINDS[kind] or kind == 'module' else '', 'h': h})
     return rows
 
@@ -102,9 +119,10 @@ def lean_text(rows):
            'verdict on the statement written with that field emptied. -/',
            'namespace Pfst.Gen.CanDelAll', 'open Pfst.CanDel', '',
            'structure Row where', '  shape : Shape', '  field : Field', '  canNorm : Bool', '  canRaw : Bool', '  parsesAfter : Bool',
+           '  clsOk : Bool   -- after really emptying the field (delete and cut, normalisation on) the live statement class is the class CPython parses',
            'deriving DecidableEq, Repr', '', 'def rows : List Row := [']
     for r in rows:
-        out.append(f"  ⟨⟨.{r['kind']}, {b(r['handlers'])}, {b(r['orelse'])}, {b(r['finalbody'])}⟩, .{r['field']}, {b(r['canNorm'])}, {b(r['canRaw'])}, {b(r['parsesAfter'])}⟩,")
+        out.append(f"  ⟨⟨.{r['kind']}, {b(r['handlers'])}, {b(r['orelse'])}, {b(r['finalbody'])}⟩, .{r['field']}, {b(r['canNorm'])}, {b(r['canRaw'])}, {b(r['parsesAfter'])}, {b(r['clsOk'])}⟩,")
     out[-1] = out[-1].rstrip(',')
     out += [']', '', 'end Pfst.Gen.CanDelAll', '']
     return '\n'.join(out)
